@@ -643,6 +643,9 @@ GRIDS = {
 }
 
 
+SRC_COVERAGE = (-180, -88, 180, 88)       # EPSG:4326
+
+
 def color_of(i):
     return ((37 * i + 60) % 200 + 30, (91 * i + 20) % 200 + 30, (53 * i + 140) % 200 + 30)
 
@@ -690,6 +693,16 @@ def gen_config(rng):
         else:
             tree.append(items.pop())
     cfg = {'sources': sources, 'caches': caches, 'tree': tree}
+    # Sources that no cache uses may have a coverage of their own (about half of them; with and without clip: true).
+    # It contains every request the generators make, so it never blanks a source; what it changes: a plain source
+    # is added to the merger with that coverage (masked when clip is set), a LimitedLayer wrapper shadows it.
+    # (chosen from a checksum of the configuration, not from rng)
+    import zlib
+    used = set(c['source'] for c in caches)
+    for sc in sources:
+        k = zlib.crc32(json.dumps([sc, tree], sort_keys=True).encode()) % 4
+        if sc['id'] not in used and k >= 2:
+            sc['coverage'] = {'bbox': list(SRC_COVERAGE), 'clip': k == 3}
     if rng.random() < 0.3:
         x0, y0 = rng.randrange(-150, -60), rng.randrange(-70, -20)
         cfg['wms_extent'] = {'srs': 'EPSG:4326', 'bbox': [x0, y0, x0 + rng.randrange(90, 200), y0 + rng.randrange(50, 100)]}
@@ -708,6 +721,8 @@ def config_yaml(cfg, d):
             e['wms_opts'] = {'featureinfo': True}
         if s['opacity'] is not None:
             e['image'] = {'opacity': s['opacity']}
+        if s.get('coverage'):
+            e['coverage'] = {'bbox': s['coverage']['bbox'], 'srs': 'EPSG:4326', 'clip': bool(s['coverage']['clip'])}
         sources['s%d' % s['id']] = e
     caches = {}
     for c in cfg['caches']:
@@ -1280,10 +1295,17 @@ def handle_map(ctx, cfg, req, cb, resp, status, rec, up_map, tree, names, extent
             ctx.fail('map,403-without-explicit-denied-layer', 'status 403 although every denied layer is implicit', rep)
     # sources behind caches that store tiles may be answered from disk: their upstream request is optional
     maybe = sorted(set(c['source'] for c in cfg['caches'] if c['store']))
-    out['map_terms'].append('(%s, %s, %s, %s, %s, %s, %s, %s)' % (
+    # (limited_to id, clip flag) of the coverages the merger got, when they can be matched with the render list
+    mclips = None
+    if status == 200 and rec.merge_call is not None:
+        cv = combined_view(ents, rec.merge_call)
+        if cv and len(cv) == len(rec.merge_call['layers']):
+            mclips = [(c, bool(ml[2])) for c, ml in zip(cv, rec.merge_call['layers'])]
+    out['map_terms'].append('(%s, %s, %s, %s, %s, %s, %s, %s, %s)' % (
         tree, llit([names(n) for n in req['layers']]), cb_lit(cb, names), obs,
         olit(None if cbarg is None else [names(n) for n in cbarg], llit), llit(up_map), llit(maybe),
-        olit(groups, lambda gs: llit(gs, lambda g: '(%s, %s)' % (olit(g[0]), llit(g[1]))))))
+        olit(groups, lambda gs: llit(gs, lambda g: '(%s, %s)' % (olit(g[0]), llit(g[1])))),
+        olit(mclips, lambda l: llit(l, lambda e: '(%s, %s)' % (olit(e[0]), blit(e[1]))))))
     out['map_descr'].append({'stream': 'app', 'case': {'config': cfg, 'requests': [req]}, 'status': status,
                              'observed_render_list(lim,src)': ents, 'observed_rendered_groups(lim,srcs)': groups, 'observed_global_coverage': gcov,
                              'callback_layers_arg': cbarg, 'upstream_map_sources': up_map})
@@ -1329,7 +1351,7 @@ def handle_map(ctx, cfg, req, cb, resp, status, rec, up_map, tree, names, extent
                              % (x, y, got, bg), rep)
                     return
                 if ents and all(l is not None and l > 0 and dcls[l] == 'out' for l, _s in ents) and got != bg:
-                    ctx.fail(SIG_BLEND if blend_any else 'map,layer-clip-leak',
+                    ctx.fail('map,layer-clip-leak,layer-with-opacity' if blend_any else 'map,layer-clip-leak',
                              'pixel (%d,%d) lies outside the geometry of every rendered layer but is %r (background %r)'
                              % (x, y, got, bg), rep)
                     return
@@ -1393,7 +1415,14 @@ def handle_map(ctx, cfg, req, cb, resp, status, rec, up_map, tree, names, extent
                 if fr.denominator & (fr.denominator - 1):
                     ok = False
                 op = (fr.numerator, fr.denominator)
-            if clip != (c is not None):
+            if c is None and _cv is not None:
+                # a plain source with its own coverage (clipped when clip is set): by construction it contains the
+                # frame, so no pixel lies outside; checked here on the coverage object's bbox
+                cb_ = _cv.bbox
+                if not (_cv.srs.srs_code == 'EPSG:4326' and cb_[0] <= SRC_COVERAGE[0] and cb_[1] <= SRC_COVERAGE[1]
+                        and cb_[2] >= SRC_COVERAGE[2] and cb_[3] >= SRC_COVERAGE[3]):
+                    ok = False
+            elif clip != (c is not None):
                 ok = False
             metas.append('(mk_lmeta %s %s %s)' % (
                 'M_RGBA' if mode == 'RGBA' else 'M_RGB',
@@ -1679,8 +1708,9 @@ Definition strip (o : wms_out) : wms_out :=
 Definition inl (l : list Z) (g : Z) : bool := mem g l.
 Definition inll (l : list (list Z)) (gs : list Z) : bool := existsb (list_eqb Z.eqb gs) l.
 """
-MAP_TYPE = 'list wlayer * list Z * option cbres * wms_out * option (list Z) * list Z * list Z * option (list group)'
-MAP_CHECK = ("fun c => let '(tree, req, cb, obs, cbarg, log, maybe, groups) := c in "
+MAP_TYPE = ('list wlayer * list Z * option cbres * wms_out * option (list Z) * list Z * list Z * option (list group) '
+            '* option (list (option Z * bool))')
+MAP_CHECK = ("fun c => let '(tree, req, cb, obs, cbarg, log, maybe, groups, mclips) := c in "
              "let m := wms_map tree req cb in "
              "wms_out_eqb (strip m) obs "
              "&& match cbarg with Some a => list_eqb Z.eqb a (wms_map_cbarg tree req) | None => true end "
@@ -1688,7 +1718,8 @@ MAP_CHECK = ("fun c => let '(tree, req, cb, obs, cbarg, log, maybe, groups) := c
              "&& forallb (fun x => mem x log || mem x maybe) (wms_log m) "
              "&& match groups, m with "
              "   | Some gs, W_ok rl _ => groups_ok (map (fun e : rentry => (snd (fst e), snd e)) rl) gs "
-             "   | _, _ => true end")
+             "   | _, _ => true end "
+             "&& match mclips with Some l => limited_layers_clip l | None => true end")
 FI_TYPE = 'list wlayer * list Z * list Z * option cbres * list Z * fi_out'
 FI_CHECK = ("fun c => let '(tree, ql, ls, cb, pin, obs) := c in "
             "match wms_featureinfo tree ql ls cb (inl pin), obs with "
